@@ -531,12 +531,16 @@ pub fn arc_programs(tier: &str, with_forget: bool) -> (Vec<Program>, String) {
         v.extend(fam::arc_family(1, 2, 2, 4, true, with_forget, false));
         v.extend(fam::arc_family(2, 2, 1, 4, false, with_forget, false));
         v.extend(fam::arc_family(1, 2, 1, 3, false, false, true));
-        level = "ARC: 1 child x <=2 ops + main <=2 (raw ops); 2 children <=4 ops; cell-in-Drop variant".to_string();
+        v.extend(fam::arc_cell_children_only(2));
+        v.extend(fam::arc_cell_children_only(3));
+        level = "ARC: 1 child x <=2 ops + main <=2 (raw ops); 2 children <=4 ops; cell-in-Drop variant, also with 2-3 children as the only owners".to_string();
     } else {
         v.extend(fam::arc_family(1, 3, 2, 5, true, with_forget, false));
         v.extend(fam::arc_family(2, 2, 2, 5, true, with_forget, false));
         v.extend(fam::arc_family(3, 1, 1, 4, false, with_forget, false));
         v.extend(fam::arc_family(2, 2, 1, 4, false, false, true));
+        v.extend(fam::arc_cell_children_only(2));
+        v.extend(fam::arc_cell_children_only(3));
         level = "ARC: 1 child x <=3 ops + main <=2; 2 children <=5 ops (raw ops); 3 children x 1 op; cell-in-Drop variant".to_string();
     }
     (v, level)
